@@ -1021,6 +1021,9 @@ class PyListGenerator(metaclass=property_wizard):
         # iterate over the nested types in the other list and check for the
         # model explicitly. For the rest of the types in the other list
         # (including nested lists), we just add them to our current list.
+        # Remember to carry over the `is_optional` flag
+        self.parsed_types.is_optional |= other.parsed_types.is_optional
+
         for t in other.parsed_types:
             if isinstance(t, PyDataclassGenerator):
                 if self.model:
